@@ -211,6 +211,7 @@ type runStats struct {
 	truncated  bool
 	crossAgree int
 	crossDis   int
+	crossUnk   int
 	primaryUnknown int
 	fallback   map[string]int
 }
@@ -289,6 +290,9 @@ func explore(ld *loaded, entries []*ssa.Function, cfg *Config, workers int, maxP
 					}
 					if e.Kind == "crossagree" {
 						st.crossAgree++
+					}
+					if e.Kind == "crossunknown" {
+						st.crossUnk++
 					}
 					if e.Kind == "crossdisagree" {
 						st.crossDis++
@@ -1016,6 +1020,9 @@ func runCheck(mode string, args []string) {
 		}
 		replayS = time.Since(tr).Seconds()
 	}
+	if st.crossDis > 0 {
+		broken = append(broken, fmt.Sprintf("%d assertion queries answered unsat by %s are not unsat for %s: inconclusive", st.crossDis, cfg.Solver, *cross))
+	}
 	if mismatched > 0 {
 		for _, n := range mismatchNotes {
 			fmt.Printf("  MISMATCH (engine prediction differs from native run): %s\n", trunc(n, 700))
@@ -1157,6 +1164,7 @@ func runCheck(mode string, args []string) {
 			"cross_solver":           *cross,
 			"cross_agree":            st.crossAgree,
 			"cross_disagree":         st.crossDis,
+			"cross_unknown":          st.crossUnk,
 			"instructions_interpreted": st.instr,
 			"witness_mismatches":     mismatched,
 			"counterexamples_spurious": spurious,
